@@ -44,7 +44,7 @@ func plansFor(prop string, thorough bool) ([]Plan, int) {
 			{Name: "gov-bad", Const: "gov", Kinds: []string{"vote", "seen", "dkgres", "bad", "replay", "chk"}, Depth: d(3, 4),
 				SimNum: d(60, 1500), SimDepth: d(30, 50), MaxBeh: d(2500, 40000)},
 			{Name: "gov-ni", Const: "ni", Kinds: []string{"vote", "seen"}, Depth: d(7, 8), Product: "ni", Twins: "c10", MaxBeh: d(1500, 20000)},
-			{Name: "gov-ni-bad", Const: "gov", Kinds: []string{"vote", "seen", "dkgres", "bad", "replay"}, Depth: d(3, 4), Product: "ni", Twins: "c10", MaxBeh: d(1500, 20000)},
+			{Name: "gov-ni-bad", Const: "ni", Kinds: []string{"vote", "seen", "dkgres", "bad", "replay"}, Depth: d(2, 3), Product: "ni", Twins: "c10", MaxBeh: d(1500, 20000)},
 		}, 1
 	case "C13":
 		return []Plan{
@@ -141,6 +141,24 @@ func Check(c *core.Ctx) int {
 		}
 	}
 	extra := map[string]any{"spec_level_counterexamples": specLeads, "known_finding_hits": knownHits}
+	if c.Prop == "C13" && len(outs) > 0 {
+		pr, mres, err := CheckPersistFaults(c, outs[0].Gen.Consts)
+		if err != nil {
+			fmt.Println("INCONCLUSIVE:", err)
+			return core.ExitInconclusive
+		}
+		c.Logf("persist faults: %d saves with a write failure point, %d interrupted-save states, %d violations, %d drift; PersistFile model %d states",
+			pr.Saves, pr.Crashes, len(pr.Violations), pr.Drift, mres.Distinct)
+		extra["persist_file"] = map[string]any{"saves_with_fault_point": pr.Saves, "interrupted_save_states": pr.Crashes,
+			"model_distinct_states": mres.Distinct, "sample": pr.Sample, "drift": pr.Drift}
+		for i, l := range pr.Violations {
+			violations++
+			if i < 3 {
+				path := c.WriteReplay(fmt.Sprintf("persist-%d", i), l)
+				c.Violation(path, fmt.Sprintf("C13_FileIntact: save with write limit %d (encoding %d bytes) returned err=%v %q; loading the state file afterwards gives %q", l.Limit, l.Size, l.Err, l.Msg, l.Loaded))
+			}
+		}
+	}
 	WriteEvidence(c, outs, violations, extra, assumptions())
 	if violations > 0 {
 		return core.ExitViolation
